@@ -22,7 +22,16 @@ def sh(cmd, **kw):
     return subprocess.run(cmd, text=True, stdout=subprocess.PIPE, stderr=subprocess.STDOUT, **kw)
 
 
+def clean():
+    tag = hashlib.sha1(os.path.realpath(SCRATCH).encode()).hexdigest()[:8]
+    for b in glob.glob(os.path.join(VERIF, ".build", "*-" + tag)):
+        shutil.rmtree(b, ignore_errors=True)
+
+
 def main():
+    if sys.argv[1] == "--clean":
+        clean()
+        return 0
     sid = sys.argv[1]
     d = os.path.join(VERIF, "seeded", sid)
     meta = json.load(open(os.path.join(d, "meta.json")))
@@ -51,9 +60,10 @@ def main():
     finally:
         sh(["git", "-C", "/repo", "worktree", "remove", "--force", SCRATCH])
         shutil.rmtree(SCRATCH, ignore_errors=True)
-        tag = hashlib.sha1(os.path.realpath(SCRATCH).encode()).hexdigest()[:8]
-        for b in glob.glob(os.path.join(VERIF, ".build", "*-" + tag)):
-            shutil.rmtree(b, ignore_errors=True)
+        # the build output of the scratch path is kept between self-tests (incremental rebuilds) unless SELFTEST_CLEAN=1;
+        # remove it with:  SELFTEST_CLEAN=1 tools/selftest.py --clean
+        if os.environ.get("SELFTEST_CLEAN") == "1":
+            clean()
     return 0
 
 
